@@ -597,7 +597,10 @@ pub fn run(rep: &mut Report) {
             c.alph.topics = 2;
             c.alph.als = vec![Al::No, Al::Reg(1), Al::Reg(2), Al::Reg(3), Al::Use(1), Al::Use(2)];
             c.alph.use_unbound = true;
-            c.connects = vec![ConnProf::basic(true), ConnProf { tam: Some(2), rm: Some(1), mps: Some(12), ..ConnProf::basic(false) }, ConnProf { tam: Some(2), rm: Some(1), ..ConnProf::basic(true) }];
+            // (publishes in every status, also during an attempt that resumes the session without asking for it to
+            // persist: accepted means transmitted or queued)
+            c.alph.pub_any_status = true;
+            c.connects = vec![ConnProf::basic(true), ConnProf { tam: Some(2), rm: Some(1), mps: Some(12), ..ConnProf::basic(false) }, ConnProf { tam: Some(2), rm: Some(1), ..ConnProf::basic(true) }, ConnProf::resume_no_expiry()];
             c.connacks = vec![AckProf::basic(false), AckProf { tam: Some(2), rm: Some(1), mps: Some(12), ..AckProf::basic(true) }, AckProf { tam: Some(2), rm: Some(1), ..AckProf::basic(false) }];
             c.groups = vec!["c11"];
             run_cfg::<u16>(rep, c, if thorough { Limits::new(200, 400_000, 60.0) } else { Limits::new(200, 40_000, 4.0) }, false);
